@@ -145,7 +145,7 @@ func Decode(b []byte, decFn codec.Decoder) (*Token, error) {
 
 // DecodeReader is the same as Decode, but accept an io.Reader.
 func DecodeReader(r io.Reader, decFn codec.Decoder) (*Token, error) {
-	node, err := ipld.DecodeStreaming(r, decFn)
+	node, err := envelope.DecodeStreaming(r, decFn)
 	if err != nil {
 		return nil, err
 	}
